@@ -204,6 +204,24 @@ structure Reply (β : Type) where
   /-- chunk sizes not used by this reply -/
   rest : List Nat
 
+/-- `sendData` once the start offset `off` is settled: `NewReader(off)` (AOF reader when a
+    segment covers `off`, else the snapshot when `off` is not beyond it, else an error
+    answered with `CLEAR`), the `META` announcement, the `CONTINUE` chunks. -/
+def Leader.sendData (L : Leader β) (off : Int) (ch : List Nat) : Reply β :=
+  match L.data with
+  | none => ⟨[ctl .clear], .err, ch⟩
+  | some d =>
+    if L.inAof d off then
+      let r := chop ch (d.bytes.drop (off - (d.base : Int)).toNat)
+      ⟨⟨.info, "", true, off, -1, []⟩ :: conts off r.1, .blocks, r.2⟩
+    else match d.snap with
+      | none => ⟨[ctl .clear], .err, ch⟩
+      | some s =>
+        if off ≤ (d.base : Int) then
+          let r := chop ch s
+          ⟨⟨.info, "", false, d.base, s.length, []⟩ :: conts off r.1, .eof, r.2⟩
+        else ⟨[ctl .clear], .err, ch⟩
+
 /-- `ReplicaLeader.Handle` for the request `(rid, roff)`; `ch` are the sizes of the
     successive `ioReader.Read` results. -/
 def Leader.handle (L : Leader β) (rid : Id) (roff : Int) (ch : List Nat) : Reply β :=
@@ -212,26 +230,10 @@ def Leader.handle (L : Leader β) (rid : Id) (roff : Int) (ch : List Nat) : Repl
   | [] => ⟨[ctl .failure], .err, ch⟩
   | i0 :: _ =>
     if i0 ≠ L.cur then ⟨[ctl .clear], .eof, ch⟩
-    else
-      let spOff := latest L.data
-      if rid = "" || rid = "?" then ⟨[⟨.info, L.cur, false, spOff, 0, []⟩], .eof, ch⟩
-      else if i0 ≠ rid then ⟨[ctl .error], .err, ch⟩
-      else if roff - spOff > 0 then ⟨[⟨.handover, L.cur, false, spOff, 0, []⟩], .err, ch⟩
-      else
-        let off := if L.valid roff then roff else spOff
-        match L.data with
-        | none => ⟨[ctl .clear], .err, ch⟩
-        | some d =>
-          if L.inAof d off then
-            let r := chop ch (d.bytes.drop (off - (d.base : Int)).toNat)
-            ⟨⟨.info, "", true, off, -1, []⟩ :: conts off r.1, .blocks, r.2⟩
-          else if inRdb d off then
-            match d.snap with
-            | none => ⟨[ctl .clear], .err, ch⟩
-            | some s =>
-              let r := chop ch s
-              ⟨⟨.info, "", false, d.base, s.length, []⟩ :: conts off r.1, .eof, r.2⟩
-          else ⟨[ctl .clear], .err, ch⟩
+    else if rid = "" || rid = "?" then ⟨[⟨.info, L.cur, false, latest L.data, 0, []⟩], .eof, ch⟩
+    else if i0 ≠ rid then ⟨[ctl .error], .err, ch⟩
+    else if roff - latest L.data > 0 then ⟨[⟨.handover, L.cur, false, latest L.data, 0, []⟩], .err, ch⟩
+    else L.sendData (if L.valid roff then roff else latest L.data) ch
 
 /-! ### follower -/
 
